@@ -260,15 +260,37 @@ pub fn ok_token<T: core::fmt::Debug>(v: &T) -> String {
     format!("ok:{:016x}", fnv(format!("{v:?}").as_bytes()))
 }
 
-/// Output sink: lines for the model driver.
-pub struct Out {
-    pub lines: Vec<String>,
+/// Output sink: one call per case; `--index i` runs and prints only case `i` (replay).
+pub struct Emitter {
+    pub only: Option<usize>,
+    pub n: usize,
+    w: std::io::BufWriter<std::io::Stdout>,
 }
-impl Out {
-    pub fn new() -> Self {
-        Out { lines: vec![] }
+impl Emitter {
+    pub fn new(only: Option<usize>) -> Self {
+        Emitter { only, n: 0, w: std::io::BufWriter::new(std::io::stdout()) }
     }
-    pub fn push(&mut self, s: String) {
-        self.lines.push(s)
+    pub fn case(&mut self, f: impl FnOnce() -> Vec<String>) {
+        use std::io::Write;
+        let i = self.n;
+        self.n += 1;
+        if self.only.map_or(true, |o| o == i) {
+            for l in f() {
+                writeln!(self.w, "{l}").unwrap();
+            }
+        }
+    }
+}
+
+pub struct Opts {
+    pub tier: String,
+    pub seed: u64,
+    pub only: Option<String>,
+    pub index: Option<usize>,
+    pub limit: usize,
+}
+impl Opts {
+    pub fn thorough(&self) -> bool {
+        self.tier == "thorough"
     }
 }
